@@ -282,7 +282,9 @@ impl HttpError {
         status_code: ClientErrorStatusCode,
     ) -> Self {
         // TODO-polish This should probably be our own message.
-        let message = status_code.canonical_reason().unwrap().to_string();
+        // Not every 4xx code has a standard label (e.g., 444).
+        let message =
+            status_code.canonical_reason().unwrap_or("Client Error").to_string();
         HttpError::for_client_error(error_code, status_code, message)
     }
 
